@@ -606,6 +606,9 @@ class SymExec:
                 return ast.Tuple(elts=[k, elem(x.args[0])], ctx=ast.Load())
             if isinstance(x, ast.Attribute) and x.attr == 'flat':
                 return ast.Subscript(value=x.value, slice=k, ctx=ast.Load())
+            if isinstance(x, ast.Call) and (dotted(x.func) or '') in ('repeat', 'itertools.repeat') and len(x.args) == 1 \
+               and not x.keywords:
+                return x.args[0]        # every element of repeat(v) is v
             if isinstance(x, ast.Call) and (dotted(x.func) or '') in ('pairwise', 'itertools.pairwise') and \
                len(x.args) == 1 and not x.keywords:
                 # neighbours: (X[k], X[k + 1])
@@ -1287,10 +1290,85 @@ def _neg_const(n):
     return None
 
 
+_FRESH_K = itertools.count(9000)
+
+
+def _last(func):
+    d = dotted(func)
+    return d.split('.')[-1] if d else None
+
+
+def _stdlib_algebra(n):
+    """what an application of an operator / functools / itertools building block is, written out:
+         attrgetter('a.b')(x) -> x.a.b          attrgetter('a', 'b')(x) -> (x.a, x.b)
+         itemgetter(i)(x) -> x[i]               methodcaller('m', *a)(x) -> x.m(*a)
+         partial(f, *a, **k)(*b, **l) -> f(*a, *b, **k, **l)
+         chain(A, B) -> [*A, *B]                chain.from_iterable([A, B]) -> [*A, *B]
+         fmt.__mod__(x) -> fmt % x              x.__getitem__(i) -> x[i]
+       (the callable may have been handed through parameters / locals before it is applied).  None otherwise."""
+    if not isinstance(n, ast.Call):
+        return None
+    f = n.func
+    if isinstance(f, ast.Call) and not any(isinstance(a, ast.Starred) for a in f.args):
+        nm = _last(f.func)
+        if nm == 'attrgetter' and f.args and not f.keywords and len(n.args) == 1 and not n.keywords and \
+           all(isinstance(a, ast.Constant) and isinstance(a.value, str) for a in f.args):
+            def get(path):
+                v = n.args[0]
+                for part in path.split('.'):
+                    v = ast.Attribute(value=v, attr=part, ctx=ast.Load())
+                return v
+            vals = [get(a.value) for a in f.args]
+            return vals[0] if len(vals) == 1 else ast.Tuple(elts=vals, ctx=ast.Load())
+        if nm == 'itemgetter' and f.args and not f.keywords and len(n.args) == 1 and not n.keywords:
+            vals = [ast.Subscript(value=n.args[0], slice=a, ctx=ast.Load()) for a in f.args]
+            return vals[0] if len(vals) == 1 else ast.Tuple(elts=vals, ctx=ast.Load())
+        if nm == 'methodcaller' and f.args and isinstance(f.args[0], ast.Constant) and isinstance(f.args[0].value, str) and \
+           len(n.args) == 1 and not n.keywords:
+            return ast.Call(func=ast.Attribute(value=n.args[0], attr=f.args[0].value, ctx=ast.Load()),
+                            args=list(f.args[1:]), keywords=list(f.keywords))
+        if nm == 'partial' and f.args:
+            return ast.Call(func=f.args[0], args=list(f.args[1:]) + list(n.args), keywords=list(f.keywords) + list(n.keywords))
+    if isinstance(f, ast.Attribute) and f.attr == '__mod__' and len(n.args) == 1 and not n.keywords:
+        return ast.BinOp(left=f.value, op=ast.Mod(), right=n.args[0])
+    if isinstance(f, ast.Attribute) and f.attr == '__getitem__' and len(n.args) == 1 and not n.keywords:
+        return ast.Subscript(value=f.value, slice=n.args[0], ctx=ast.Load())
+    nm = _last(f)
+    if nm == 'chain' and isinstance(f, (ast.Name, ast.Attribute)) and (dotted(f) or '') in ('chain', 'itertools.chain') and \
+       n.args and not n.keywords and not any(isinstance(a, ast.Starred) for a in n.args):
+        elts = []
+        for a in n.args:
+            if isinstance(a, (ast.List, ast.Tuple)):
+                elts += list(a.elts)
+            else:
+                elts.append(ast.Starred(value=a, ctx=ast.Load()))
+        return ast.List(elts=elts, ctx=ast.Load())
+    if nm == 'from_iterable' and (dotted(f) or '').endswith('chain.from_iterable') and len(n.args) == 1 and not n.keywords:
+        a = n.args[0]
+        if _is_each(a) and not isinstance(a.args[0], (ast.List, ast.Tuple)):
+            # every element of every E(x), x in IT: nested each = flattened iteration
+            k = ast.Name(id='_k%d' % next(_FRESH_K), ctx=ast.Load())
+            inner = ast.Call(func=ast.Name(id='_each', ctx=ast.Load()),
+                             args=[ast.Subscript(value=a.args[0], slice=k, ctx=ast.Load()), a.args[0]], keywords=[])
+            return ast.Call(func=ast.Name(id='_each', ctx=ast.Load()), args=[inner, a.args[1]], keywords=[])
+        if isinstance(a, (ast.List, ast.Tuple)) and not any(isinstance(x, ast.Starred) for x in a.elts):
+            elts = []
+            for x in a.elts:
+                if isinstance(x, (ast.List, ast.Tuple)):
+                    elts += list(x.elts)
+                else:
+                    elts.append(ast.Starred(value=x, ctx=ast.Load()))
+            return ast.List(elts=elts, ctx=ast.Load())
+    return None
+
+
 def simplify(e):
     """(a, b)[1] -> b   (after substitution; arithmetic is left as written: `c = E` and `c = 0 + E`
     must stay distinguishable)"""
     def fn(n):
+        r_ = _stdlib_algebra(n)
+        if r_ is not None:
+            return simplify(r_)
         if isinstance(n, ast.Call) and isinstance(n.func, ast.Name) and n.func.id == 'getattr' and len(n.args) == 2 \
            and not n.keywords and isinstance(n.args[1], ast.Constant) and isinstance(n.args[1].value, str) and \
            n.args[1].value.isidentifier():
